@@ -85,8 +85,45 @@ def fill(claim, na):
         "arithmetic on the accumulator.",
         "DESIGN.md section 4, C01",
     )
-    for pid in ( "C06", "C07", "C08", "C09", "C11", "C12", "C13", "C15", "C16",
-                "C17", "C18", "C19", "C20"):
+    claim(
+        "C15", "other",
+        "write-set/restore-set comparison on registry globals, CFG must-pass-through and guard dominance, alphabet table agreement (registry vs tokenizer), import-time snapshot rule",
+        "Structural: every registry global mutated by register_element is restored by reset(); class defaults written by "
+        "set_default_values are snapshotted at import and restored; the registry store is dominated by the duplicate-symbol "
+        "refusal and removal by the default-element refusal (CFG must-pass); _initialized() runs after all element modules; "
+        "every path to the store passes symbol validation and (under the import-time flag) equation-vs-_impedance "
+        "validation of both parts; nobody outside registry.py reads the globals, get_elements() is never evaluated at "
+        "import time, the parser reads the table per instance; tokenizer's element-identifier alphabet ⊇ registry's and "
+        "has no upper-case continuation.",
+        "Not decided: 'behaves exactly as freshly imported' beyond these tables (e.g. a built-in class re-registered under a "
+        "second symbol). Unrecognised restore idiom = exit 2.",
+        "DESIGN.md section 4, C15",
+    )
+    claim(
+        "C16", "other",
+        "use-site enumeration with a reviewed running-flag table; f-string shape agreement between identifier writers and the suffix reader; counter fold summary",
+        "Every numbering of elements goes through generate_element_identifiers with an explicit running flag; the flag at "
+        "each of the reviewed use sites is the one its role needs (symbolic variables, fit identifiers and the suffix "
+        "reader: running; display names: per-type); writers (Element/Container.to_sympy, generate_fit_identifiers) and "
+        "the reader (_extract_parameters: endswith + rsplit) agree on <symbol>_<id>; the fitted-parameter table names "
+        "elements by the same rule as get_element_name; traversal is duplicate-free and enters sub-circuits; per-type "
+        "counts start at 1 in both sibling implementations; duplicate names are rejected before fitting.",
+        "Trusted: the reviewed role table (12 sites). A new use site is reported as a note, not decided.",
+        "DESIGN.md section 4, C16",
+    )
+    claim(
+        "C20", "other",
+        "kind-dispatch exhaustiveness over the sum type {Series, Parallel, Element} at every traversal site; emit-once rule; framing and push/pop counting",
+        "At the 11 child-traversal sites of the two diagram back ends, to_stack and to_sympy, the dispatch covers all three "
+        "kinds, the fall-through raises or handles the rest, each element arm emits exactly once and recursion is on the "
+        "visited child; to_latex is latex(to_sympy(False)); CircuiTikZ begin/end framing on every path; push/pop in "
+        "draw_parallel counted equal for n=1..8 branches; exporters are installed on Circuit and Connection. Symbol "
+        "clauses are decided by C02 R2.2 and C16.",
+        "Not decided: coordinates, that schemdraw/LaTeX accept the emitted calls, empty connections.",
+        "DESIGN.md section 4, C20",
+    )
+    for pid in ( "C06", "C07", "C08", "C09", "C11", "C12", "C13",
+                "C17", "C18", "C19"):
         na(pid, NOT_YET)
     na("C10", "statistical behaviour of a heuristic pipeline (noise tracking, drift margin) on noisy inputs: quantifies over "
               "numerical outcomes of optimisers and random noise; no sound static argument bounds it")
